@@ -203,6 +203,7 @@ type Cluster struct {
 	observer        *SimNode
 	synthetic       bool
 	synthNears      [][2]string
+	realStart       time.Time
 	hostileSeen     bool
 	ffAccepted      *ffTriple
 	syn             *synthState
